@@ -669,10 +669,48 @@ class Gen:
         els = self.block(sc, r.randint(0, 2), depth - 1) if r.random() < 0.6 else None
         return {'k': 'select', 'e': self.bounded(e, sc), 'cases': cases, 'els': els}
 
+    def record_lvalues(self, sc, rty):
+        """Lvalues that denote a whole record of type rty: record variables,
+        elements of arrays of records, and record-typed fields of either."""
+        out = []
+
+        def sub(base, bty):
+            if bty == rty:
+                out.append(base)
+            for fn, ft in self.env.types[bty[2:]]:
+                if ft.startswith('T:'):
+                    if base[0] == 'fld':
+                        sub(['fld', base[1], base[2] + [fn]], ft)
+                    else:
+                        sub(['fld', base, [fn]], ft)
+        for rn, rt in sc.record_vars():
+            sub(['var', rn], rt)
+        for an, info in sorted(sc.all_arrays().items()):
+            if info['ty'].startswith('T:'):
+                sub(('elem', an), info['ty'])
+        return out
+
+    def pick_record_lvalue(self, sc, rty):
+        c = self.record_lvalues(sc, rty)
+        if not c:
+            return None
+
+        def fix(x):
+            if isinstance(x, tuple):
+                return self.element(sc, x[1])
+            if x[0] == 'fld':
+                return ['fld', fix(x[1]), x[2]]
+            return x
+        return fix(self.r.choice(c))
+
     def call_args(self, sc, proc, depth=1):
         r = self.r
         args = []
         for pname, pty, isarr in proc['params']:
+            if not isarr and pty.startswith('T:'):
+                # a record is always passed by reference
+                args.append(self.pick_record_lvalue(sc, pty))
+                continue
             if isarr:
                 c = [an for an, info in sc.all_arrays().items()
                      if info['ty'] == pty and len(info['bounds']) == proc['arr_rank'][pname]
@@ -710,6 +748,8 @@ class Gen:
                          and tuple(info['bounds']) == tuple(p['arr_bounds'][pname])]
                     if not c:
                         ok = False
+                elif pty.startswith('T:') and not self.record_lvalues(sc, pty):
+                    ok = False
             if ok:
                 out.append(p)
         return out
@@ -957,6 +997,10 @@ class Gen:
             for j in range(r.randint(0, 3)):
                 ty = r.choice(list(self.num_types) + (['$'] if self.p['strings'] else []))
                 params.append([self.fresh('p', ty), ty, False])
+            if self.types and r.random() < 0.35:
+                # a record parameter (always by reference)
+                params.insert(r.randint(0, len(params)),
+                              [self.fresh('pr'), 'T:' + r.choice(self.types)['name'], False])
             recursive = kind == 'function' and self.p['recursion'] and r.random() < 0.5
             if recursive:
                 params.insert(0, [self.fresh('n', '%'), '%', False])
